@@ -76,7 +76,7 @@ type Session struct {
 // Server is the fake Redis.
 type Server struct {
 	dbs      map[int]map[string]*entry
-	vers     map[string]int64 // db:key -> modification counter
+	vers     map[string]int64        // db:key -> modification counter
 	tracked  map[string]map[int]bool // db:key -> session ids
 	Sessions []*Session
 	NowMs    func() int64
@@ -98,7 +98,10 @@ type Server struct {
 	RunScript    func(c *Ctx, body string, keys, args []string, ro bool) Reply
 	Extra        map[string]func(c *Ctx) Reply // additional commands installed by harnesses
 	NodeID       string
-	FailCmd      map[string]string // upper-case command (or "CLIENT TRACKING" style two-word) -> error text to reply
+	// BetweenPushes, when set, is called after each but the last confirmation of a multi-channel (P|S)SUBSCRIBE:
+	// an environment deviation that lets other pushes land between two confirmations on the wire
+	BetweenPushes func(ss *Session, kind, channel string)
+	FailCmd       map[string]string // upper-case command (or "CLIENT TRACKING" style two-word) -> error text to reply
 	// ActiveExpire (opt-in, needs After): keys with a TTL are removed on their own at their expiry time, like Redis'
 	// active expiry cycle (idealised: exactly on time), so tracking clients get the invalidation although nobody
 	// touches the key. Default off: keys expire lazily on the next command.
